@@ -5,6 +5,7 @@ line `{"engine": ..., ...}`, one response per output line: `{"ok": {...}}` or
 -/
 import ZenoModel.Driver.SeqEngine
 import ZenoModel.Driver.StoreEngine
+import ZenoModel.Driver.CrashEngine
 import ZenoModel.Driver.CoalesceEngine
 import ZenoModel.Driver.QueryEngine
 import ZenoModel.Driver.CodecEngine
@@ -17,6 +18,7 @@ def dispatch (j : Json) : R Json := do
   match (← str j "engine") with
   | "seq" => seqEngine j
   | "store" => storeEngine j
+  | "crash" => crashEngine j
   | "coalesce" => coalesceEngine j
   | "spec" => specEngine j
   | "query" => queryEngine j
